@@ -10,6 +10,7 @@ import (
 	"encoding/json"
 	"fmt"
 	"os"
+	"sync/atomic"
 	"unicode/utf8"
 
 	_ "vh/vstub"
@@ -30,9 +31,9 @@ type ufEntry struct {
 }
 
 type replay struct {
-	Inputs  []input   `json:"inputs"`
-	Chooses []int64   `json:"chooses"`
-	UF      []ufEntry `json:"uf"`
+	Inputs  []input          `json:"inputs"`
+	Chooses []int64          `json:"chooses"`
+	UF      []ufEntry        `json:"uf"`
 	Params  map[string]int64 `json:"params"`
 }
 
@@ -65,7 +66,13 @@ func load() {
 }
 
 // Reset rewinds the replay cursor (used by the replay driver).
-func Reset() { loaded = false; inPos, chPos, clock = 0, 0, 0; Failures = nil; Obs = nil }
+func Reset() {
+	loaded = false
+	inPos, chPos, clock = 0, 0, 0
+	atomic.StoreInt64(&clock64, 0)
+	Failures = nil
+	Obs = nil
+}
 
 func next(w int) uint64 {
 	load()
@@ -251,8 +258,10 @@ func UFBool(name string, args ...int) bool {
 	return ufLookup(name, a) != 0
 }
 
-// Clock is a logical time stamp (visible-operation counter under the engine).
-func Clock() int { clock++; return clock }
+// Clock is a logical time stamp (visible-operation counter under the engine; an atomic counter natively).
+func Clock() int { return int(atomic.AddInt64(&clock64, 1)) }
+
+var clock64 int64
 
 // Observe appends values to the path's observable log (compared between the symbolic and the native run).
 func Observe(label string, vals ...any) {
